@@ -18,7 +18,38 @@ verus! {
 //@include env/model_network_types.vs
 //@include env/model_spec.vs
 //@include-trusted env/model_fns.vs
-//@include env/solution_types.vs
+// ---- text of env/solution_types.vs, copied: `struct Tour` loses its `derive(Clone)` (see A-derive in the header) ----
+//@item solution/src/tour.rs type Position : plain
+//@end
+//@item solution/src/tour.rs struct Tour : plain
+//@drop-derive Clone
+//@end
+// A-derive: the derived `Clone` of Tour is structural (the derive is dropped so that the impl can carry a specification)
+impl Clone for Tour {
+    #[verifier::external_body]
+    fn clone(&self) -> (r: Self)
+        ensures r == *self
+    { unimplemented!() }
+}
+//@item solution/src/path.rs struct Path : plain
+//@end
+//@item solution/src/segment.rs struct Segment : plain
+//@end
+//@item solution/src/segment.rs Segment::new
+//@retname r
+//@sig
+    ensures r.start == start, r.end == end,
+//@end
+//@item solution/src/segment.rs Segment::start
+//@retname r
+//@sig
+    ensures r == self.start,
+//@end
+//@item solution/src/segment.rs Segment::end
+//@retname r
+//@sig
+    ensures r == self.end,
+//@end
 //@include env/tour_spec.vs
 //@include env/sums.vs
 //@include-trusted env/dist_ops.vs
@@ -159,25 +190,96 @@ use self::trs::*;
         forall|vt: VehicleTypeIdx| #[trigger] final(transitions)@.contains_key(vt) && !self.touches_type(vehicles@, changed_vehicles@, vt)
             ==> final(transitions)@[vt] == old(transitions)@[vt], // @obl C10.update_transitions.other_types_untouched
 //@end
-// verified in slice tour_pos (env/tour_pos_fns.vs)
-//@item solution/src/tour.rs Tour::sub_path : trusted
+// verified in slice tour_pos (env/tour_pos_fns.vs: latest_not_reaching_node, check_removable, conflict, sub_path, …) and
+// slice path (env/path_fns.vs: Path::new_trusted); Tour::position_of: shared stub (env/tour_stubs.vs)
+//@include env/tour_stubs.vs
+//@include-trusted env/path_fns.vs
+//@include-trusted env/tour_pos_fns.vs
+// verified in slice tour_mod
+//@item solution/src/tour/modifications.rs Tour::remove : trusted
 //@retname r
 //@sig
-    requires self.wf(), self.network.has(segment.start), self.network.has(segment.end), tour_len_ok(self.nodes@),
-        // "A segment is a pair of non-depot node ids": at least not one depot taken alone
-        !(self.network.sp_node(segment.start).sp_is_depot() && segment.start == segment.end),
+    requires self.wf(), self.caches_ok(), self.network.has(segment.start), self.network.has(segment.end), tour_len_ok(self.nodes@),
     ensures
-        // C12: "extracting a sub-path of an existing segment always succeeds"
-        forall|i: int, j: int| 0 <= i <= j < self.len() && #[trigger] self.nodes@[i] == segment.start && #[trigger] self.nodes@[j] == segment.end
-            && !all_depots(&self.network, self.nodes@.subrange(i, j + 1))
-            ==> r is Ok && r.unwrap().node_sequence@ == self.nodes@.subrange(i, j + 1), // @obl C12.sub_path.always_succeeds
-        r is Ok ==> exists|i: int, j: int| 0 <= i <= j < self.len() && self.nodes@[i] == segment.start && self.nodes@[j] == segment.end
-            && r.unwrap().node_sequence@ == #[trigger] self.nodes@.subrange(i, j + 1),
+        // C12: "Removing a segment yields the tour without exactly those nodes, is refused when it
+        // would strand a depot or leave an unconnectable gap"
+        r is Ok <==> self.has_node(segment.start) && self.has_node(segment.end)
+            && self.removable(self.index_of(segment.start), self.index_of(segment.end)), // @obl C12.remove.refusal
+        r is Ok ==> r->Ok_0.1.node_sequence@ == self.mid(self.index_of(segment.start), self.index_of(segment.end) + 1)
+            && (r->Ok_0.0 is Some ==> r->Ok_0.0->Some_0.nodes@ == self.rest(self.index_of(segment.start), self.index_of(segment.end) + 1)), // @obl C12.remove.exactly_those_nodes
+        r is Ok && r->Ok_0.0 is Some ==> r->Ok_0.0->Some_0.is_dummy == self.is_dummy && r->Ok_0.0->Some_0.network == self.network
+            && r->Ok_0.0->Some_0.wf(), // @obl C01.remove.wf
+        r is Ok && r->Ok_0.0 is Some ==> r->Ok_0.0->Some_0.caches_ok(), // @obl C09.remove.caches
+        // C13: "a vehicle left without activities disappears": no tour is returned exactly when nothing (dummy) resp.
+        // nothing but the two depots (real vehicle) would be left
+        r is Ok ==> (r->Ok_0.0 is None <==> (if self.is_dummy { self.rest(self.index_of(segment.start), self.index_of(segment.end) + 1).len() == 0 }
+            else { self.rest(self.index_of(segment.start), self.index_of(segment.end) + 1).len() <= 2 })), // @obl C13.remove.no_tour_iff_no_activity_left
+        r is Ok ==> r->Ok_0.1.network == self.network,
+//@end
+//@item solution/src/tour/modifications.rs Tour::insert_path : trusted
+//@retname r
+//@sig
+    requires self.wf(), self.caches_ok(), tour_len_ok(self.nodes@),
+        path.network == self.network, tour_len_ok(path.node_sequence@),
+        // A-path: the inserted path is a path of the network (connected) with an activity
+        path_shape(&self.network, path.node_sequence@),
+    ensures ({
+        let n = eff_path(self, path.node_sequence@);
+        exists|s: int, e: int| {
+            &&& ins_positions(self, n, s, e) && 0 <= s <= e <= self.len()
+            // C12: longest prefix whose last node reaches the path + the whole path + longest suffix the path reaches
+            &&& r.0.nodes@ == #[trigger] self.spliced(s, e, n) // @obl C12.insert_path.prefix_path_suffix
+            // C12: reports exactly the dropped nodes
+            &&& (all_depots(&self.network, self.mid(s, e)) ==> r.1 is None)
+            &&& (!all_depots(&self.network, self.mid(s, e)) ==> r.1 is Some && r.1.unwrap().node_sequence@ == self.mid(s, e)) // @obl C12.insert_path.reports_exactly_dropped
+        }
+    }),
+        r.0.is_dummy == self.is_dummy && r.0.network == self.network,
+        r.0.wf(), // @obl C01.insert_path.wf
+        r.0.caches_ok(), // @obl C09.insert_path.caches
+//@end
+//@item solution/src/path.rs Path::iter : trusted
+//@ret SeqIter<NodeIdx>
+//@sig
+    ensures r@ == self.node_sequence@,
+//@end
+// verified here, text as in slices/tour_mod.vs
+//@item solution/src/path.rs Path::first
+//@retname r
+//@sig
+    requires self.node_sequence@.len() >= 1,
+    ensures r == self.node_sequence@[0],
+//@end
+//@item solution/src/path.rs Path::last
+//@retname r
+//@sig
+    requires self.node_sequence@.len() >= 1,
+    ensures r == self.node_sequence@[self.node_sequence@.len() - 1],
+//@end
+//@item solution/src/path.rs Path::consume
+//@retname r
+//@sig
+    ensures r@ == self.node_sequence@,
+//@end
+// verified here (no other slice has them under contract)
+//@item solution/src/path.rs Path::length
+//@retname r
+//@sig
+    ensures r == self.node_sequence@.len(),
+//@end
+//@item solution/src/tour.rs Tour::nth_node
+//@retname r
+//@sig
+    ensures
+        pos < self.len() ==> r == Some(self.nodes@[pos as int]),
+        pos >= self.len() ==> r is None,
 //@end
 
-// ---- Schedule::fit_path_into_tour: STUB (Step 1); contract derived from C13, vocabulary in env/fit_reassign_shim.vs ----
-//@item solution/src/schedule/modifications.rs Schedule::fit_path_into_tour : trusted
+// ---- Schedule::fit_path_into_tour: verbatim body; contract derived from C13, vocabulary in env/fit_reassign_shim.vs ----
+//@item solution/src/schedule/modifications.rs Schedule::fit_path_into_tour
 //@retname r
+//@viter
+//@viter-skip path
 //@sig
     requires
         // "Assumes that path is a sub path of the tour of provider."; both tours are well-formed tours of the schedule's
@@ -188,6 +290,72 @@ use self::trs::*;
         // any of its own (fit)"; "Returns: (new_tour_provider, new_tour_receiver, moved_nodes).  None for new_tour_provider
         // means there is no tour left."
         self.fit_outcome(path.node_sequence@, provider, receiver, r.0, r.1, r.2@), // @obl C13.fit_path_into_tour.provider_loses_receiver_gains_only_moved_nodes
+//@closure-params map_while#0
+    (usize, NodeIdx)
+//@closure map_while#0
+    -> (o: Option<(usize, NodeIdx)>) requires self.network.has(p0.1), self.network.has(blocker) ensures o is Some ==> o.unwrap() == p0
+//@closure-params filter#0
+    &(usize, NodeIdx)
+//@closure filter#0
+    -> (b: bool) requires self.network.wf(), self.network.has(p0.1), self.network.has(blocker)
+//@closure-params filter#1
+    &(usize, NodeIdx)
+//@closure filter#1
+    -> (b: bool) requires new_tour_provider is Some, new_tour_provider.unwrap().wf(), new_tour_provider.unwrap().network.has(sub_segment_start), new_tour_provider.unwrap().network.has(p0.1)
+//@first
+        hide(Schedule::fit_inv);
+        hide(Schedule::fit_pre);
+        broadcast use axiom_into_items_vec;
+        assert(self.has_tour(provider) && self.has_tour(receiver)) by { reveal(Schedule::fit_pre); }
+        let ghost pn = path.node_sequence@;
+        let ghost rcv = receiver; // `receiver` is shadowed by a tour inside the loop
+        let ghost mut k: int = 0;
+//@before "let mut remaining_path"
+        proof { lemma_fit_init(self, pn, provider, rcv, new_tour_provider.unwrap(), new_tour_receiver); }
+//@loop "while let Some(path)"
+            invariant
+                self.fit_inv(pn, provider, rcv, new_tour_provider, new_tour_receiver, moved_nodes@, opt_nodes(remaining_path), k), // @obl C13.fit_path_into_tour.provider_loses_receiver_gains_only_moved_nodes
+            ensures remaining_path is None,
+            decreases (if remaining_path is Some { remaining_path.unwrap().node_sequence@.len() + 1 } else { 0 }),
+//@before "let sub_segment_start"
+            let ghost r0 = path.node_sequence@;
+            let ghost k0 = k;
+            let ghost ntp0 = new_tour_provider;
+            let ghost ntr0 = new_tour_receiver;
+            let ghost m0 = moved_nodes@;
+            proof {
+                lemma_fit_iter(self, pn, provider, rcv, ntp0, ntr0, m0, Some(r0), k0);
+                lemma_items_chain(r0);
+            }
+//@before "path.iter()"
+                        proof { assert(self.network.has(blocker)); }
+//@before "let mut node_sequence"
+            assert(end_pos < r0.len() && sub_segment_end == r0[end_pos as int]);
+//@before "let sub_segment ="
+            let ghost c = node_sequence@;
+            proof {
+                assert(c == r0.subrange(0, end_pos + 1));
+                lemma_fit_chunk(self, pn, provider, rcv, ntp0, ntr0, m0, Some(r0), k0, end_pos as int);
+                lemma_fit_skip(self, pn, provider, rcv, ntp0, ntr0, m0, Some(r0), k0, end_pos as int, opt_nodes(remaining_path));
+                k = k0 + end_pos + 1;
+            }
+//@before "let (receiver, _)"
+            proof {
+                lemma_remove_block(&ntp0.unwrap(), ntp0.unwrap().index_of(r0[0]), ntp0.unwrap().index_of(r0[end_pos as int]));
+                assert(path_for_insertion.node_sequence@ == c);
+                assert(no_conflict(&ntr0, c));
+            }
+//@before "moved_nodes.extend"
+            let ghost ns = node_sequence;
+//@after "moved_nodes.extend"
+            proof {
+                axiom_into_items_vec::<NodeIdx>(ns);
+                assert(moved_nodes@ == m0 + c);
+                assert(inserted(&ntr0, c, new_tour_receiver.nodes@));
+                lemma_fit_move(self, pn, provider, rcv, ntp0, ntr0, m0, Some(r0), k0, end_pos as int, opt_nodes(remaining_path), new_tour_provider, new_tour_receiver);
+            }
+//@before "(new_tour_provider, new_tour_receiver, moved_nodes)"
+        proof { lemma_fit_done(self, pn, provider, rcv, new_tour_provider, new_tour_receiver, moved_nodes@, k); }
 //@end
 
 // ---- the function under contract ------------------------------------------------------------------------------
@@ -274,8 +442,10 @@ use self::trs::*;
             lemma_fr_ut_pre(self, segment, provider, receiver, ntp, ntr, mv);
             lemma_seq_ext_all(mv);
         }
-//@before "self.update_transitions_and_violation_fast("
+//@after "self.update_tours("
         proof {
+            // the precondition of update_transitions_and_violation_fast (anchored here: a tree without that call still has
+            // this anchor and fails C09.fit_reassign.maintenance_violation_exact)
             lemma_fr_upd_pre(self, segment, provider, receiver, ntp, ntr, mv, vehicles@, tours@);
         }
 //@before "Ok(Schedule::new("
